@@ -161,6 +161,10 @@ def parse_input_const_value_node(
         return generate_constant(None)
 
     if isinstance(node, EnumValueNode):
+        if nested_object:
+            # field_type is the type of the enclosing input object here, not the enum:
+            # model_validate turns the value into the member of the right enum
+            return generate_constant(node.value)
         member = node.value + "_" if iskeyword(node.value) else node.value
         return generate_name(f"{field_type}.{member}")
 
